@@ -5,6 +5,8 @@ import (
 	"fmt"
 	"os"
 	"path/filepath"
+	"strings"
+	"sync"
 
 	"verif/lib"
 )
@@ -184,7 +186,86 @@ func (r *c12Run) check(desc string, n *btreeNode, viaFile bool, nontrivial bool)
 	}
 }
 
+func c12Internal(cells int, base uint32, off uint64, lsn uint64) *btreeNode {
+	node := &btreeNode{fileOffset: off}
+	for i := 0; i < cells; i++ {
+		node.appendInternalCell(base+uint32(i), uint64(4096*(i+2)))
+	}
+	node.rightOffset = uint64(4096 * (cells + 3))
+	node.markDirty(lsn)
+	return node
+}
+
+// c12RacePass: free-running, built with -race by the driver. Several stores (each with its own file, as two
+// databases or two sessions have) write and re-read pages at the same time: serialising a page must not
+// go through anything shared between stores. The race detector reports such sharing whatever the timing;
+// the round trips are compared as well.
+func c12RacePass(env *lib.Env, rep *lib.Report) {
+	dir := filepath.Join(lib.ScratchRoot(), "c12race")
+	os.MkdirAll(dir, 0755)
+	defer os.RemoveAll(dir)
+	const workers, rounds = 4, 200
+	var wg sync.WaitGroup
+	var mu sync.Mutex
+	var problems []string
+	for w := 0; w < workers; w++ {
+		w := w
+		wg.Add(1)
+		go func() {
+			defer wg.Done()
+			fs, err := newFileStore(filepath.Join(dir, fmt.Sprintf("tbl%d", w)), false)
+			if err != nil {
+				panic(lib.HarnessError{Msg: err.Error()})
+			}
+			defer fs.file.Close()
+			for i := 0; i < rounds; i++ {
+				var n *btreeNode
+				if (i+w)%2 == 0 {
+					nc := 1 + (i+w)%8
+					l := &c12Leaf{keys: make([]uint32, nc), sizes: make([]int, nc), deleted: make([]bool, nc), off: uint64(4096 * (1 + i%5)), lsn: uint64(i)}
+					for k := range l.keys {
+						l.keys[k], l.sizes[k] = uint32(100*w+k), (37*w+11*k+i)%401
+					}
+					n = l.build()
+				} else {
+					n = c12Internal(2+(i*7+w)%280, uint32(1000*w), uint64(4096*(1+i%5)), uint64(i))
+				}
+				want := c12Logical(n)
+				fs.cache = NewLRU(4)
+				if err := fs.update(n); err != nil {
+					mu.Lock()
+					problems = append(problems, fmt.Sprintf("store %d round %d: update: %v", w, i, err))
+					mu.Unlock()
+					return
+				}
+				fs.cache = NewLRU(4)
+				g, err := fs.fetch(n.fileOffset)
+				if err != nil || c12Logical(g) != want {
+					mu.Lock()
+					if len(problems) < 5 {
+						problems = append(problems, fmt.Sprintf("store %d round %d: page written while %d other stores were writing reads back differently (error %v)", w, i, workers-1, err))
+					}
+					mu.Unlock()
+					return
+				}
+			}
+		}()
+	}
+	wg.Wait()
+	rep.Evaluations = workers * rounds
+	rep.AddCase(true, 1, 1)
+	rep.AddCase(true, 2, 2)
+	if len(problems) > 0 {
+		rep.AddFailure(&lib.Failure{Kind: "concurrent-roundtrip", Detail: strings.Join(problems, "\n"), Trace: []string{"race pass"}})
+	}
+	rep.Notes = append(rep.Notes, fmt.Sprintf("race pass: %d stores x %d pages written and re-read concurrently", workers, rounds))
+}
+
 func runC12(env *lib.Env, rep *lib.Report) {
+	if os.Getenv("VERIF_RACE_PASS") != "" {
+		c12RacePass(env, rep)
+		return
+	}
 	dir := filepath.Join(lib.ScratchRoot(), "c12")
 	os.MkdirAll(dir, 0755)
 	fs, err := newFileStore(filepath.Join(dir, "tbl"), false)
